@@ -156,6 +156,105 @@ def mutate(rng, per):
     return kind, per
 
 
+def fatal_lane_links(rng):
+    """stave-level links in which lanes announce the FATAL state through an APE byte (0xF4..0xFC) and are absent from the
+    later frames -- the lanes of the link's own group, lanes of another group, and data words whose lane id lies beyond
+    the barrel (inner barrel: 0x29..0x3F, lane numbers 9..31).  -> per-link lists of (rdh, payload)"""
+    per = []
+    used = set()
+    for _ in range(rng.choice([1, 1, 2])):
+        while True:
+            layer = rng.choice([0, 1, 2, 0, 1, 2, rng.randrange(3, 7)])
+            stave, lid = rng.randrange(12), rng.randrange(24)
+            if (layer, stave) not in used and lid not in [x[1] for x in used]:
+                used.add((layer, stave))
+                used.add(("link", lid))
+                break
+        l = streams.Link(rng, lid, layer, stave, fmt=rng.choice([0, 2]), stave_level=True)
+        if layer <= 2:
+            foreign = [0x20 + x for x in range(9) if 0x20 + x not in l.lane_ids] + list(range(0x29, 0x40))
+        else:
+            foreign = [i for i in range(0x40, 0x80) if i not in l.lane_ids]
+        events = {}      # frame index -> lane id bytes that announce FATAL in that frame
+        nfr = rng.randrange(2, 6)
+        for _ in range(rng.choice([1, 1, 2, 3])):
+            idb = rng.choice(l.lane_ids) if rng.random() < 0.5 else rng.choice(foreign)
+            events.setdefault(rng.randrange(nfr - 1), []).append(idb)
+        gone = set()
+        words = [itsgen.ihw(l.lanes_mask)]
+        bc = rng.randrange(0, 0x100)
+        trig = 0x6A03
+        for f in range(nfr):
+            words.append(itsgen.tdh(trigger_type=(trig & 0xFFF) if f == 0 else 0x010, internal=1, no_data=0, continuation=0, bc=bc, orbit=l.orbit))
+            abc = rng.randrange(256)
+            now = events.get(f, [])
+            # the frames after an announcement usually come with as many lanes fewer as lanes are known to be in FATAL state
+            # (whichever lanes those are: the count is what the frame check looks at first)
+            nforeign = len([i for i in gone if i not in l.lane_ids])
+            absent = set(rng.sample(l.lane_ids, min(nforeign, len(l.lane_ids)))) if rng.random() < 0.7 else set()
+            for idb in l.lane_ids + [i for i in now if i not in l.lane_ids]:
+                if idb in gone and rng.random() < 0.9:
+                    continue
+                if idb in absent and idb not in now:
+                    continue
+                if idb in now:
+                    words += streams.lane_words(idb, bytes([rng.choice([0xF4, 0xF8, 0xFC, 0xF5])]))
+                elif layer <= 2:
+                    words += streams.lane_words(idb, streams.alpide_lane([idb & 0x1F], abc, rng))
+                else:
+                    words += streams.lane_words(idb, streams.alpide_lane(list(range(7)), abc, rng))
+            gone.update(now)
+            words.append(itsgen.tdt(packet_done=1))
+            bc += rng.randrange(1, 40)
+        pl = itsgen.payload(words, l.fmt)
+        pk = [(l.rdh(len(pl), 0, 0, bc & 0xFF, trig), pl)]
+        pl = itsgen.payload([itsgen.ddw0()], l.fmt)
+        pk.append((l.rdh(len(pl), 1, 1, bc & 0xFF, trig), pl))
+        per.append(pk)
+    return per
+
+
+def corpus():
+    """the inputs of the recorded and repaired crash findings, run first on every tier: -> [(name, bytes, mode)]"""
+    rng = random.Random(4)
+
+    def ib_link(frames, layer=0, cont_first=0, link=5):
+        l = streams.Link(rng, link, layer, 10, fmt=2, stave_level=True)
+        l.group, l.lane_ids, l.lanes_mask = [0, 1, 2], [0x20, 0x21, 0x22], 7
+        words = [itsgen.ihw(l.lanes_mask)]
+        for f, lanes in enumerate(frames):
+            words.append(itsgen.tdh(trigger_type=0xA03 if f == 0 else 0x010, internal=1, no_data=0, continuation=cont_first if f == 0 else 0, bc=10 + f, orbit=l.orbit))
+            for idb, data in lanes:
+                words += streams.lane_words(idb, data)
+            words.append(itsgen.tdt(packet_done=1))
+        pl = itsgen.payload(words, l.fmt)
+        out = l.rdh(len(pl), 0, 0, 10, 0x6A03) + pl
+        pl = itsgen.payload([itsgen.ddw0()], l.fmt)
+        return out + l.rdh(len(pl), 1, 1, 10, 0x6A03) + pl
+
+    ok = lambda lane, bc: bytes([0xA0 | lane, bc, 0xB0])
+    good = [(0x20, ok(0, 7)), (0x21, ok(1, 7)), (0x22, ok(2, 7))]
+    # layer 7 on a later packet (the very first RDH of an input is vetted by the start-up code): a second link behind a good one
+    first = ib_link([good])
+    data7 = bytearray(first + ib_link([good], link=6))
+    pos = len(first)
+    while pos + 64 <= len(data7):
+        fee = struct.unpack_from("<H", data7, pos + 2)[0]
+        struct.pack_into("<H", data7, pos + 2, fee | 0x7000)
+        pos += struct.unpack_from("<H", data7, pos + 8)[0]
+    st = ["check", "all", "its-stave"]
+    return [
+        ("F2-empty-input", b"", ["check", "sanity"]),
+        ("F2-three-bytes", b"\x07\x40\x00", ["check", "all"]),
+        ("F5-data-word-outside-frame", ib_link([good], cont_first=1), st),
+        ("F6-layer-7", bytes(data7), ["view", "its-readout-frames"]),
+        ("F6-layer-7", bytes(data7), st),
+        ("F8-lane-without-chip", ib_link([[(0x20, b"\x00" * 9), (0x21, ok(1, 7)), (0x22, ok(2, 7))]]), st),
+        ("F17-fatal-lane-9", ib_link([good + [(0x29, b"\xF4")], [(0x20, ok(0, 8)), (0x21, ok(1, 8))]]), st),
+        ("F17-fatal-lanes-9-31", ib_link([good + [(0x29, b"\xF8"), (0x3F, b"\xFC")], [(0x20, ok(0, 8))], [(0x22, ok(2, 9))]]), st),
+    ]
+
+
 def run(tier, seed):
     chk = core.Check("C04", tier, seed)
     rng = random.Random(seed)
@@ -171,8 +270,13 @@ def run(tier, seed):
     tmp = core.scratch_dir("c04")
     nin = 500 if deep else 70
     jobs = []
+    for ci, (name, data, mode) in enumerate(corpus()):
+        path = os.path.join(tmp, "corpus%d.raw" % ci)
+        open(path, "wb").write(data)
+        for src in ("file", "pipe"):
+            jobs.append({"s": -1 - ci, "kind": "corpus:" + name, "data": data, "path": path, "mode": mode, "opts": [], "src": src})
     for s in range(nin):
-        cls = ["random", "mutated", "mutated", "mutated", "truncated", "random-with-rdh0", "ff-payloads"][s % 7]
+        cls = ["random", "mutated", "mutated", "mutated", "truncated", "random-with-rdh0", "ff-payloads", "fatal-lanes"][s % 8]
         per = None
         if cls == "random":
             data = bytes(rng.getrandbits(8) for _ in range(rng.choice([0, 1, 7, 8, 9, 63, 64, 65, 200, 1000, 5000])))
@@ -181,6 +285,10 @@ def run(tier, seed):
             body = bytearray(rng.getrandbits(8) for _ in range(rng.choice([56, 120, 600, 3000])))
             data = bytes([rng.choice([6, 7]), 0x40]) + struct.pack("<H", rng.randrange(7) << 12 | rng.randrange(48)) + bytes([0, 0x20, 0, 0]) + bytes(body)
             kind = "random-with-rdh0"
+        elif cls == "fatal-lanes":
+            kind = "fatal-lanes"
+            per = fatal_lane_links(rng)
+            data = b"".join(r + p for pk in per for r, p in pk)
         else:
             stave = rng.random() < 0.5
             _m, per = streams.conforming(rng, nlinks=rng.choice([1, 2, 3]), nhbf=rng.choice([1, 2]), stave_level=stave)
@@ -205,6 +313,8 @@ def run(tier, seed):
         picked = modes if deep else rng.sample(modes, 4)
         if cls == "ff-payloads" and not deep:
             picked = [["check", "all", "its"], ["check", "sanity", "its"]] + rng.sample(modes, 2)
+        if cls == "fatal-lanes" and not deep:
+            picked = [["check", "all", "its-stave"], ["check", "all", "its-stave"], ["view", "its-readout-frames-data"]] + rng.sample(modes, 1)
         for mode in picked:
             opts = []
             o = rng.random()
@@ -279,7 +389,8 @@ def run(tier, seed):
     shutil.rmtree(tmp, ignore_errors=True)
     chk.cov["rule"] = ("inputs: pure random bytes (0..5000, also behind a valid RDH0), conforming streams corrupted structure-aware (bit flips, extreme values in every RDH field, words "
                        "deleted / duplicated / swapped / inserted, continuation TDH first, packets spliced across links, sizes inconsistent with content, identifiers overwritten, "
-                       "ALPIDE lanes without chip header / only idle bytes / fatal extensions / lane ids beyond the barrel, heavy random overwrite), truncations x check sanity|all "
+                       "ALPIDE lanes without chip header / only idle bytes / fatal extensions / lane ids beyond the barrel, heavy random overwrite), stave-level links whose lanes "
+                       "(own group, other groups, lane ids beyond the barrel) announce FATAL and then stay away (fatal-lanes, truncations x check sanity|all "
                        "x none|its|its-stave, the three views, filtered writing x filters, -m, -e, -E, -p, custom checks x file / pipe, shipped-profile binary. Required: the process "
                        "ends on its own within the limit, no panic / abort / signal, exit status in {0, 1, configured}. A panic is attributed to a recorded finding only by its "
                        "site; model and binary must agree on `hits a panic site`. distinct = (input class, mode, outcome)")
